@@ -38,6 +38,12 @@ CLAIMED = {
             "BASE/OTHER/THIS, clean merges produce the region-wise merged text, and the unchanged-side / identical-change "
             "laws hold. Real trees, helper files on disk and conflict resolution are outside.",
             "the compiled patience matcher is replaced by the alignment of the edit scripts; trees / transform are stubs"),
+    "C20": ("conflict selection kernel",
+            "The real ConflictList.select_conflicts over real TextConflict / PathConflict objects with SYMBOLIC paths and file "
+            "ids, symbolic paths to resolve (versioned or not) and recursion: exactly the conflicts whose path, conflict "
+            "path or file id matches are selected, the two result lists partition the list in order. Persistence of "
+            "conflict lists / merge hashes (rio stanzas, Rust, real trees) is outside.",
+            "osutils.is_inside_any (Rust) replaced by a validated python model; tree.path2id is a stub"),
     "C22": ("numeric revision specifiers (kernel)",
             "RevisionSpec.from_string(...).in_history(branch) for revno:n, bare n, negative n, last:n, before:n, "
             "before:revno:n, dotted revno:a.b.c and arbitrary short malformed text after 'revno:', with SYMBOLIC n, symbolic "
@@ -112,6 +118,11 @@ CLAIMED = {
             "Two revisions that differ in exactly one attested field (15 fields, 3 testament classes, symbolic values) must "
             "have different testament texts or be rejected. Cross-format determinism needs real repositories (outside).",
             "contains_whitespace/linebreaks (Rust) replaced by validated python models; one tree entry"),
+    "C42": ("export entry selection kernel",
+            "The real breezy.export._export_iter_entries over a stub tree with SYMBOLIC entry paths and a symbolic "
+            "sub-directory: exactly the entries of the exported (sub-)tree are yielded, under the right relative path; "
+            "special and filtered entries never. The archive writers (tar/zip/dir, I/O) are outside.",
+            "tree is a stub; paths are well-formed '/'-separated tree paths"),
     "C45": ("eol filter stack",
             "All 7 eol settings on content <= 6/9 arbitrary bytes, every chunk split: NUL content untouched, canonical text "
             "round-trips, writer output form, independence of chunking; the module's look-behind regex is interpreted by the "
